@@ -11,22 +11,23 @@ Definition Reach (capacity : nat) (asy : bool) (flt : list bool) (progs : list (
 (* owner of the event counter: a producer inside start_consumer or a launched / running consumer *)
 Definition is_owner (th : thread) : bool :=
   match tpc th with
-  | PSubmit _ | PRollback _ | CStart | CPoll _ | CConsume | CReload | CCas _ => true
+  | PSubmit _ | PRollback _ | CStart | CPoll _ | CConsume | CReload | CSize _ | CCas _ => true
   | _ => false
   end.
 Definition owners (l : list thread) : nat := length (filter is_owner l).
 
 (* a consumer activation: launched (CStart) or running *)
 Definition is_consumer (th : thread) : bool :=
-  match tpc th with CStart | CPoll _ | CConsume | CReload | CCas _ => true | _ => false end.
+  match tpc th with CStart | CPoll _ | CConsume | CReload | CSize _ | CCas _ => true | _ => false end.
 
 (* the producer is between taking its ticket and its fetch_add on _events *)
 Definition in_flight (th : thread) : bool :=
   match tpc th with PPublish _ | PSignal (Some _) => true | _ => false end.
 
-(* the head ticket of the queue (if there is one) belongs to a producer that has not signalled yet *)
-Definition hu (cs : list cell) (np : nat) : Prop := forall c, nth_error cs np = Some c -> csig c = false.
-Definition head_unsig (s : st) : Prop := hu (cells s) (npop s).
+(* no ticket that is still in the queue (not yet popped) has been signalled by its producer *)
+Definition tu (cs : list cell) (np : nat) : Prop :=
+  forall k c, (np <= k)%nat -> nth_error cs k = Some c -> csig c = false.
+Definition tail_unsig (s : st) : Prop := tu (cells s) (npop s).
 
 (* published tickets not yet popped *)
 Definition pending_published (s : st) : list cell := filter cpub (skipn (npop s) (cells s)).
@@ -46,6 +47,8 @@ Lemma g_exit_expected : forall e, exit_expected e = e. Proof. reflexivity. Qed.
 Lemma g_exit_desired : exit_desired = 0. Proof. reflexivity. Qed.
 Lemma g_join : forall e, join_waits e = negb (e =? 0). Proof. reflexivity. Qed.
 Lemma g_rb_expected : forall e, rollback_expected e = e. Proof. reflexivity. Qed.
+Lemma g_keep : forall z, keep_role_while_tickets_out z = negb (z =? 0). Proof. reflexivity. Qed.
+Lemma g_qsize : forall a b, queue_size a b = if b >? a then b - a else 0. Proof. reflexivity. Qed.
 
 (* memory-order obligations on the regenerated site tables *)
 Definition orders_ok : bool :=
@@ -61,9 +64,14 @@ Lemma eq_orders_ok : orders_ok = true. Proof. reflexivity. Qed.
 Definition push_is_ticketed : bool :=
   match sites_bq_push with (KFadd, _, _) :: _ => true | _ => false end.
 Lemma eq_push_is_ticketed : push_is_ticketed = true. Proof. reflexivity. Qed.
+(* size() reads both queue indices *)
+Definition size_is_two_loads : bool :=
+  match sites_bq_size with [(KLoad, _, _); (KLoad, _, _)] => true | _ => false end.
+Lemma eq_size_is_two_loads : size_is_two_loads = true. Proof. reflexivity. Qed.
 
 Global Opaque signal_amount signal_returns_early launch_accepted rollback_desired rollback_retries poll_nonempty
-  poll_limit exit_expected exit_desired join_waits rollback_expected launch_events_init.
+  poll_limit exit_expected exit_desired join_waits rollback_expected launch_events_init keep_role_while_tickets_out
+  queue_size.
 
 (* ---- lists ---- *)
 Lemma nth_error_upd_nth : forall A (f : A -> A) n l m,
@@ -148,7 +156,7 @@ Ltac gen_norm H :=
   repeat first [ rewrite g_early in H | rewrite g_accept0 in H | rewrite g_accept_m1 in H | rewrite g_retry1 in H
                | rewrite g_retry0 in H | rewrite g_nonempty in H | rewrite g_exit_expected in H | rewrite g_join in H
                | rewrite g_rb_expected in H | rewrite g_rb_desired in H | rewrite g_exit_desired in H
-               | rewrite g_limit in H ].
+               | rewrite g_limit in H | rewrite g_keep in H | rewrite g_qsize in H ].
 
 Ltac step_cases H :=
   unfold step_thread, do_signal, consumer_exit in H; cbv zeta in H; gen_norm H;
@@ -206,36 +214,38 @@ Proof.
     (split; simpl; intros; unfold owners in *; simpl in *; try lia).
 Qed.
 
-(* ---- the head ticket is unsignalled whenever the counter was reset by a consumer ---- *)
-Lemma hu_app : forall cs np c, hu cs np -> csig c = false -> hu (cs ++ [c]) np.
+(* ---- nothing in the queue is signalled whenever the counter was reset by a consumer ---- *)
+Lemma tu_app : forall cs np c, tu cs np -> csig c = false -> tu (cs ++ [c]) np.
 Proof.
-  unfold hu. intros cs np c H Hc c0 Hn. destruct (Nat.lt_ge_cases np (length cs)) as [L|L].
-  - rewrite nth_error_app1 in Hn by exact L. auto.
-  - rewrite nth_error_app2 in Hn by exact L. destruct (np - length cs)%nat as [|k]; simpl in Hn.
+  unfold tu. intros cs np c H Hc k c0 Hk Hn. destruct (Nat.lt_ge_cases k (length cs)) as [L|L].
+  - rewrite nth_error_app1 in Hn by exact L. eauto.
+  - rewrite nth_error_app2 in Hn by exact L. destruct (k - length cs)%nat as [|j]; simpl in Hn.
     + inversion Hn; subst; exact Hc.
-    + destruct k; discriminate.
+    + destruct j; discriminate.
 Qed.
 
-Lemma hu_pub : forall cs np k, hu cs np -> hu (upd_nth mark_pub k cs) np.
+Lemma tu_pub : forall cs np j, tu cs np -> tu (upd_nth mark_pub j cs) np.
 Proof.
-  unfold hu. intros cs np k H c Hn. rewrite nth_error_upd_nth in Hn. destruct (Nat.eqb k np) eqn:E.
-  - apply Nat.eqb_eq in E; subst. destruct (nth_error cs np) as [c0|] eqn:E0; simpl in Hn; [|discriminate].
-    inversion Hn; subst. simpl. auto.
-  - auto.
+  unfold tu. intros cs np j H k c Hk Hn. rewrite nth_error_upd_nth in Hn. destruct (Nat.eqb j k) eqn:E.
+  - apply Nat.eqb_eq in E; subst. destruct (nth_error cs k) as [c0|] eqn:E0; simpl in Hn; [|discriminate].
+    inversion Hn; subst. simpl. eauto.
+  - eauto.
 Qed.
 
-Lemma skipn_nth : forall A (l : list A) n c, nth_error l n = Some c -> skipn n l = c :: skipn (S n) l.
-Proof. induction l as [|x l IH]; intros [|n] c H; simpl in *; try discriminate; [inversion H; reflexivity | apply IH; exact H]. Qed.
+Lemma tu_empty : forall cs np, (length cs <= np)%nat -> tu cs np.
+Proof.
+  unfold tu. intros cs np L k c Hk Hn. assert (k < length cs)%nat by (apply nth_error_Some; congruence). lia.
+Qed.
 
 Record CovInv (s : st) : Prop := {
   c_cap : (1 <= cap s)%nat;
-  c_seen : forall t th seen, nth_error (threads s) t = Some th -> (tpc th = CPoll seen \/ tpc th = CCas seen) -> seen <= events s;
-  c_cas : forall t th seen, nth_error (threads s) t = Some th -> tpc th = CCas seen -> events s = seen -> head_unsig s;
+  c_seen : forall t th seen, nth_error (threads s) t = Some th -> (tpc th = CPoll seen \/ tpc th = CSize seen \/ tpc th = CCas seen) -> seen <= events s;
+  c_cas : forall t th seen, nth_error (threads s) t = Some th -> tpc th = CCas seen -> events s = seen -> tail_unsig s;
   c_sigpub : forall k c, nth_error (cells s) k = Some c -> csig c = true -> cpub c = true;
   c_psig : forall t th k, nth_error (threads s) t = Some th -> tpc th = PSignal (Some k) ->
                           exists c, nth_error (cells s) k = Some c /\ cpub c = true;
   c_ppub : forall t th k, nth_error (threads s) t = Some th -> tpc th = PPublish k -> (k < length (cells s))%nat;
-  c_cover : events s = 0 -> stale s = false -> head_unsig s
+  c_cover : events s = 0 -> stale s = false -> tail_unsig s
 }.
 
 Ltac zb :=
@@ -254,14 +264,6 @@ Proof.
   apply N. eapply owners_unique; eauto.
 Qed.
 
-Lemma sigpub_head : forall s, (forall k c, nth_error (cells s) k = Some c -> csig c = true -> cpub c = true) ->
-  ready_prefix (skipn (npop s) (cells s)) = 0%nat -> head_unsig s.
-Proof.
-  intros s H R c Hn. unfold head_unsig, hu in *. rewrite (skipn_nth _ _ _ _ Hn) in R. simpl in R.
-  destruct (cpub c) eqn:P; [discriminate|]. destruct (csig c) eqn:S; [|reflexivity].
-  rewrite (H _ _ Hn S) in P. discriminate.
-Qed.
-
 Ltac step_setup Hs s t :=
   let th := fresh "th" in let s1 := fresh "s1" in let th' := fresh "th'" in let sp := fresh "sp" in
   destruct (step_unfold _ _ _ Hs) as (th & s1 & th' & sp & Hth & Hst & ->);
@@ -273,44 +275,40 @@ Ltac spawned_case Hin := simpl in Hin; repeat (destruct Hin as [Hin|Hin]; [subst
 Ltac owner_of H := unfold is_owner; rewrite H; reflexivity.
 
 Lemma seen_step : forall s t s', OwnInv s -> CovInv s -> step s t = Some s' ->
-  forall t0 th0 seen, nth_error (threads s') t0 = Some th0 -> (tpc th0 = CPoll seen \/ tpc th0 = CCas seen) -> seen <= events s'.
+  forall t0 th0 seen, nth_error (threads s') t0 = Some th0 ->
+  (tpc th0 = CPoll seen \/ tpc th0 = CSize seen \/ tpc th0 = CCas seen) -> seen <= events s'.
 Proof.
   intros s t s' HO HC Hs t0 th0 seen Hn Hpc. step_setup Hs s t. pose proof g_amount as GA.
   destruct (install_threads _ _ _ _ _ _ Hn _ Hth1) as [[-> ->]|[[Hne Hold]|[Hin Hne]]].
-  - step_cases Hst; simpl in *; destruct Hpc as [Hpc|Hpc]; try discriminate; inversion Hpc; subst; try lia.
-    eapply (c_seen _ HC); eauto.
+  - pose proof (fun sn => c_seen _ HC t th sn Hth) as CS.
+    step_cases Hst; simpl in *; destruct Hpc as [Hpc|[Hpc|Hpc]]; try discriminate; inversion Hpc; subst; try lia;
+      apply CS; try (match goal with H : tpc _ = _ |- _ => rewrite H end); auto.
   - rewrite Hthr in Hold. pose proof (c_seen _ HC _ _ _ Hold Hpc) as Hle.
-    assert (Hown0 : is_owner th0 = true) by (unfold is_owner; destruct Hpc as [-> | ->]; reflexivity).
+    assert (Hown0 : is_owner th0 = true) by (unfold is_owner; destruct Hpc as [-> | [-> | ->]]; reflexivity).
     step_cases Hst; simpl; try lia;
       exfalso; eapply (two_owners_absurd _ t _ t0 th0); eauto;
       match goal with H : tpc _ = _ |- _ => owner_of H end.
-  - step_cases Hst; spawned_case Hin; simpl in Hpc; destruct Hpc; discriminate.
-Qed.
-
-Lemma hu_sig_other : forall cs np k, hu cs np -> k <> np -> hu (upd_nth mark_sig k cs) np.
-Proof.
-  unfold hu. intros cs np k H N c Hn. rewrite nth_error_upd_nth in Hn.
-  destruct (Nat.eqb k np) eqn:E; [apply Nat.eqb_eq in E; contradiction | auto].
+  - step_cases Hst; spawned_case Hin; simpl in Hpc; destruct Hpc as [Hpc|[Hpc|Hpc]]; discriminate.
 Qed.
 
 Lemma cas_step : forall s t s', OwnInv s -> CovInv s -> step s t = Some s' ->
-  forall t0 th0 seen, nth_error (threads s') t0 = Some th0 -> tpc th0 = CCas seen -> events s' = seen -> head_unsig s'.
+  forall t0 th0 seen, nth_error (threads s') t0 = Some th0 -> tpc th0 = CCas seen -> events s' = seen -> tail_unsig s'.
 Proof.
   intros s t s' HO HC Hs t0 th0 seen Hn Hpc Hev. step_setup Hs s t. pose proof g_amount as GA.
   destruct (install_threads _ _ _ _ _ _ Hn _ Hth1) as [[-> ->]|[[Hne Hold]|[Hin Hne]]].
   - step_cases Hst; simpl in *; try discriminate.
-    (* CPoll found nothing *)
-    zb. unfold head_unsig; simpl.
-    match goal with HC : CovInv ?x |- _ => apply (sigpub_head x (c_sigpub _ HC)); pose proof (c_cap _ HC) end.
-    rewrite Nat2Z.id in *. lia.
+    (* _queue.size() = 0: every ticket ever taken has been popped *)
+    zb. unfold tail_unsig; simpl. apply tu_empty.
+    match goal with H : (if ?b then _ else _) = 0 |- _ => destruct b eqn:Eb; [apply Z.gtb_lt in Eb; lia|] end.
+    rewrite Z.gtb_ltb in Eb. apply Z.ltb_ge in Eb. lia.
   - rewrite Hthr in Hold.
     assert (Hown0 : is_owner th0 = true) by (unfold is_owner; rewrite Hpc; reflexivity).
-    pose proof (c_seen _ HC _ _ _ Hold (or_intror Hpc)) as Hle.
+    pose proof (c_seen _ HC _ _ _ Hold (or_intror (or_intror Hpc))) as Hle.
     pose proof (c_cas _ HC _ _ _ Hold Hpc) as Hcas.
-    assert (Hcas' : events s = seen -> hu (cells s) (npop s)) by exact Hcas.
-    step_cases Hst; unfold head_unsig in *; simpl in *; try (apply Hcas'; reflexivity); try lia;
-      try (apply hu_app; [apply Hcas'; reflexivity | reflexivity]);
-      try (apply hu_pub; apply Hcas'; reflexivity);
+    assert (Hcas' : events s = seen -> tu (cells s) (npop s)) by exact Hcas.
+    step_cases Hst; unfold tail_unsig in *; simpl in *; try (apply Hcas'; reflexivity); try lia;
+      try (apply tu_app; [apply Hcas'; reflexivity | reflexivity]);
+      try (apply tu_pub; apply Hcas'; reflexivity);
       exfalso; eapply (two_owners_absurd _ t _ t0 th0); eauto;
       match goal with H : tpc _ = _ |- _ => owner_of H end.
   - step_cases Hst; spawned_case Hin; simpl in Hpc; discriminate.
@@ -390,16 +388,16 @@ Proof.
 Qed.
 
 Lemma cover_step : forall s t s', OwnInv s -> CovInv s -> step s t = Some s' ->
-  events s' = 0 -> stale s' = false -> head_unsig s'.
+  events s' = 0 -> stale s' = false -> tail_unsig s'.
 Proof.
   intros s t s' HO HC Hs Hev Hst0. step_setup Hs s t. pose proof g_amount as GA.
   pose proof (c_cover _ HC) as CV. pose proof (o_nonneg _ HO) as NN.
   assert (Hown : is_owner th = true -> 0 < events s) by (intro; eapply own_pos_of_owner; eauto).
-  unfold head_unsig in *.
+  unfold tail_unsig in *.
   step_cases Hst; simpl in *; try discriminate; try lia;
     try (apply CV; assumption);
-    try (apply hu_app; [apply CV; assumption | reflexivity]);
-    try (apply hu_pub; apply CV; assumption);
+    try (apply tu_app; [apply CV; assumption | reflexivity]);
+    try (apply tu_pub; apply CV; assumption);
     try (exfalso; assert (0 < events s) by (apply Hown; match goal with H : tpc _ = _ |- _ => owner_of H end); lia).
   (* consumer exit *)
   all: zb; eapply (c_cas _ HC); eauto.
